@@ -65,7 +65,7 @@ func e2eTrack(c *e2eCtx, decoys bool) error {
 				s.desc = cfgDesc(s.cfg)
 			}
 		}
-		c.trackAndJudge(s, decoys)
+		c.trackAndJudge(s, decoys, r)
 		os.RemoveAll(s.dir)
 	})
 	return nil
@@ -115,7 +115,7 @@ func eligible(path string, cfg proj.Config) bool {
 	return true
 }
 
-func (c *e2eCtx) trackAndJudge(s *scenario, decoys bool) {
+func (c *e2eCtx) trackAndJudge(s *scenario, decoys bool, r *rand.Rand) {
 	c.mu.Lock()
 	c.res.Evaluations++
 	c.mu.Unlock()
@@ -213,6 +213,37 @@ func (c *e2eCtx) trackAndJudge(s *scenario, decoys bool) {
 			if _, ok := s.newTree[p]; ok && eligible(p, s.cfg) && in.Markers[p] == 0 {
 				c.violate("C13", fmt.Sprintf("%s is a changed eligible Go file (its directory name merely starts with an ignored name) but was not instrumented", p), rp(map[string]any{"file": p}))
 			}
+		}
+	}
+	// ---- what happens between track and clean (C06 quantifies over these histories)
+	variant := r.Intn(6)
+	c.count(fmt.Sprintf("before-clean:%d", variant))
+	{
+		files := goFilesOf(after, s.cfg)
+		edited := map[string]string{}
+		for k, v := range after {
+			edited[k] = v
+		}
+		switch variant {
+		case 1: // some blocks marked for deletion, clean without patch
+			flipDeletes(edited, files, r, 1+r.Intn(4), false)
+			writeFiles(s.dir, edited, files)
+		case 2: // every block deleted through patch (N = 0), then clean
+			flipDeletes(edited, files, r, 0, true)
+			writeFiles(s.dir, edited, files)
+			if pr := proj.RunGoat(c.goat, s.dir, nil, "patch"); pr.Exit != 0 {
+				c.violate("C10", "goat patch failed after flipping every block: "+lastLine(pr.Stderr), rp(nil))
+			}
+		case 3: // sources restored from git, the untracked generated file stays behind
+			proj.Git(s.dir, 0, "checkout", "-q", "--", ".")
+		case 4: // insert markers added, clean without patch
+			addInserts(edited, files, r, 1+r.Intn(3))
+			writeFiles(s.dir, edited, files)
+		case 5: // a patch round with deletes and inserts, then clean
+			flipDeletes(edited, files, r, r.Intn(4), false)
+			addInserts(edited, files, r, r.Intn(3))
+			writeFiles(s.dir, edited, files)
+			proj.RunGoat(c.goat, s.dir, nil, "patch")
 		}
 	}
 	// ---- clean
